@@ -711,19 +711,23 @@ def replace(eq: str, term: str, replacement: str, rhs_only: tp.Optional[bool] = 
     ################################################################
 
     eq_new = ""
+    prev_sign = None  # character of the original equation that directly precedes the not yet processed rest `eq`
     idx = eq.find(term)
 
     # go through all appearances of term in eq
-    while idx != -1:
+    while idx != -1 and term:
 
         # get idx of sign that follows after term
         idx_follow_op = idx+len(term)
 
-        # if it is an allowed sign, replace term, else not
+        # the signs directly before and after the term decide whether it is a proper appearance of term
+        sign_before = eq[idx-1] if idx > 0 else prev_sign
+        left_ok = sign_before is None or sign_before in allowed_follow_ops
+        right_ok = idx_follow_op == len(eq) or eq[idx_follow_op] in allowed_follow_ops
+
+        # if both are allowed signs (or the borders of the equation), replace term, else not
         replaced = False
-        if ((idx_follow_op < len(eq) and eq[idx_follow_op] in allowed_follow_ops) and
-           (idx == 0 or eq[idx-1] in allowed_follow_ops)) or \
-                (idx_follow_op == len(eq) and eq[idx-1] in allowed_follow_ops):
+        if left_ok and right_ok:
             eq_part = eq[:idx]
             if (rhs_only and "=" in eq_part) or (lhs_only and "=" not in eq_part) or (not rhs_only and not lhs_only):
                 eq_new += f"{eq_part}{replacement}"
@@ -732,6 +736,7 @@ def replace(eq: str, term: str, replacement: str, rhs_only: tp.Optional[bool] = 
             eq_new += f"{eq[:idx_follow_op]}"
 
         # jump to next appearance of term in eq
+        prev_sign = eq[idx_follow_op-1]
         eq = eq[idx_follow_op:]
         idx = eq.find(term)
 
